@@ -29,7 +29,12 @@ events:
          raises OSError(ENOTCONN).  With 'tcp': 1 in the case the client connection is a real loopback TCP
          pair and the reset is a real SO_LINGER-0 close; otherwise a thin scripted wrapper around the socketpair
          end raises the errors observed on real TCP.
+  ['UR'] the origin resets the upstream connection (RST): recv / shutdown on the proxy's upstream socket fail
+         with ECONNRESET / ENOTCONN (scripted wrapper, or with 'utcp': 1 a real loopback TCP pair closed with
+         SO_LINGER 0 on the origin side)
   ['FL'] client socket writable: one queued item is written
+'rbuf': n in the case = --client-recvbuf-size n: every client write is read in recv()s of at most n bytes, one per
+  handle_events round; model events and groups are per recv
 req = {'m','form','host','port','path','v','h': [header lines], 'b': body}  (latin-1 strings)
 Every event is delivered through handler.get_events()/handle_events(R, W) like Threadless does, the
 upstream side is flushed after each event, and handler.shutdown() is called exactly once at the end.
@@ -60,7 +65,7 @@ THEOREMS = [
     'Px.Chain.C09_order', 'Px.Chain.C09_dataflow', 'Px.Chain.C09_short_circuit',
     'Px.Chain.C09_before_chain_drop', 'Px.Chain.C09_before_chain_reject', 'Px.Chain.C09_before_chain_pass',
     'Px.Chain.C09_client_request_chain_first', 'Px.Chain.C09_client_request_chain_later',
-    'Px.Chain.C09_packed_followups', 'Px.Chain.C09_packed_first',
+    'Px.Chain.C09_packed_followups', 'Px.Chain.C09_packed_first', 'Px.Chain.C09_reject_stops_reading',
     'Px.Chain.C09_upstream_chunk_chain', 'Px.Chain.C09_reject_response',
     'Px.Chain.C09_lifecycle', 'Px.Chain.C09_lifecycle_counts', 'Px.Chain.C09_lifecycle_once',
     'Px.Chain.C09_lifecycle_not_dispatched',
@@ -152,6 +157,44 @@ def ev_segments(ev):
     if extra:
         cuts = [c for c in cuts if c < len(raw)]
     return segments(raw + b''.join(req_bytes(r) for r in extra), cuts)
+
+
+def ev_extra(ev):
+    return ev[4] if ev[0] == 'F' and len(ev) > 4 else ev[3] if ev[0] == 'C' and len(ev) > 3 else []
+
+
+def ev_plan(ev, rbuf=None):
+    """The recv()s an 'F' / 'B' / 'C' event amounts to.  The client writes ev_segments(ev); with
+    --client-recvbuf-size rbuf the handler reads every write in pieces of at most rbuf bytes, one per
+    handle_events round.  Returns one dict per recv:
+      write  bytes the client writes before this recv (None: still reading the previous write)
+      chunk  what the recv returns
+      head   True while this recv still belongs to the first request of the connection ('F'/'B' group)
+      done   (only head) the first request completes in this recv
+      rest   (only done) bytes of the recv behind the first request
+      reqs   the follow-up requests that complete in this recv, each with the bytes of the recv after it"""
+    k = ev[0]
+    reqs = [ev[1]] + ev_extra(ev)
+    raws = [req_bytes(r) for r in reqs]
+    ends, pos = [], 0
+    for r in raws:
+        pos += len(r)
+        ends.append(pos)
+    stream = b''.join(raws)
+    out, a = [], 0
+    for w in ev_segments(ev):
+        pieces = [w] if not rbuf else [w[i:i + rbuf] for i in range(0, len(w), rbuf)]
+        for n, piece in enumerate(pieces):
+            b_ = a + len(piece)
+            first_follow = 0 if k == 'C' else 1
+            d = {'write': w if n == 0 else None, 'chunk': piece, 'head': k != 'C' and a < ends[0],
+                 'done': k != 'C' and a < ends[0] <= b_, 'rest': b'',
+                 'reqs': [(reqs[i], stream[ends[i]:b_]) for i in range(first_follow, len(reqs)) if a < ends[i] <= b_]}
+            if d['done']:
+                d['rest'] = stream[ends[0]:b_]
+            out.append(d)
+            a = b_
+    return out
 
 
 def segments(raw, cuts):
@@ -302,7 +345,7 @@ def _unwrap_auth(saved):
 
 
 def get_flags(case):
-    key = repr((case['auth'], case['dis'], case['plugins']))
+    key = repr((case['auth'], case['dis'], case['plugins'], case.get('rbuf')))
     if key in _FLAGS:
         return _FLAGS[key]
     from proxy.common.flag import FlagParser
@@ -311,7 +354,10 @@ def get_flags(case):
     opts = {'plugins': classes, 'disable_headers': [L(d) for d in case['dis']]}
     if case['auth'] is not None:
         opts['basic_auth'] = case['auth']
-    flags = FlagParser.initialize(['--hostname', '127.0.0.1'], threadless=True, **opts)
+    args = ['--hostname', '127.0.0.1']
+    if case.get('rbuf'):
+        args += ['--client-recvbuf-size', str(case['rbuf'])]
+    flags = FlagParser.initialize(args, threadless=True, **opts)
     _FLAGS[key] = flags
     return flags
 
@@ -377,6 +423,8 @@ class Sim:
         self.order = [label_of(k) for k in self.flags.plugins.get(b'HttpProxyBasePlugin', [])]
         self.loop = asyncio.new_event_loop()
         self.tcp = bool(case.get('tcp'))
+        self.utcp = bool(case.get('utcp'))
+        self.expect_up = False
         if self.tcp:
             self.client, proxy_end = tcp_pair()
         else:
@@ -397,7 +445,11 @@ class Sim:
         CALLS.append('conn.%s.%d' % (hx(str(addr[0]).encode()), addr[1]))
         if not self.connect_ok:
             raise ConnectionRefusedError(111, 'Connection refused')
-        a, b_ = socket.socketpair()
+        if self.utcp:
+            b_, a = tcp_pair()
+        else:
+            b_, real = socket.socketpair()
+            a = ResettableSocket(real)
         b_.setblocking(False)
         self.up_peers.append(b_)
         self.up_proxy.append(a)
@@ -417,6 +469,11 @@ class Sim:
         w = [fd for fd in ws if ev.get(fd, 0) & 2]
         if self.tcp and self.cfd in r:
             select.select([self.cfd], [], [], 2.0)       # loopback TCP delivery is not instantaneous
+        if self.utcp:
+            if [fd for fd in r if fd != self.cfd]:
+                select.select([fd for fd in r if fd != self.cfd], [], [], 2.0)
+            if [fd for fd in w if fd != self.cfd]:
+                self.expect_up = True
         if self.tcp and self.cfd in w:
             self.expect_client = True
         if self.run(self.handler.handle_events(r, w)):
@@ -451,6 +508,8 @@ class Sim:
         if self.tcp and s is self.client and self.expect_client:
             select.select([s], [], [], 0.05)
             self.expect_client = False
+        if self.utcp and s is not self.client and self.expect_up:
+            select.select([s], [], [], 0.05)
         out = b''
         while True:
             try:
@@ -468,6 +527,8 @@ class Sim:
         if self.down:
             if k == 'CR' and self.client_open:
                 self.reset_client()
+            if k == 'UR':
+                self.reset_upstream()
             return [], b'', b'', False
         start = len(CALLS)
         pre, read_client = b'', True
@@ -479,6 +540,12 @@ class Sim:
             if self.ufd() is not None and self.up_peers:
                 fd = self.ufd()
                 self.up_peers[-1].close()
+                self.deliver([fd], [])
+                self.pump_client()
+        elif k == 'UR':
+            fd = self.ufd()
+            had = self.reset_upstream()
+            if had and fd is not None:
                 self.deliver([fd], [])
                 self.pump_client()
         elif k == 'CE':
@@ -504,6 +571,25 @@ class Sim:
         toks, up, cl = self.finish(start, pre, read_client)
         return toks, up, cl, self.down
 
+    def reset_upstream(self):
+        """the origin aborts the connection with RST (if one was opened and is still open on its side)"""
+        if not self.up_peers or self.up_peers[-1].fileno() < 0:
+            return False
+        peer, prox = self.up_peers[-1], self.up_proxy[-1]
+        if self.utcp:
+            import struct
+            self.read_peer(peer)
+            peer.setsockopt(socket.SOL_SOCKET, socket.SO_LINGER, struct.pack('ii', 1, 0))
+            peer.close()
+            try:
+                select.select([prox.fileno()], [], [], 2.0)
+            except (OSError, ValueError):
+                pass
+        else:
+            peer.close()
+            prox.reset()
+        return True
+
     def reset_client(self):
         """the client's TCP stack answers with RST from now on"""
         if self.tcp:
@@ -519,16 +605,19 @@ class Sim:
     def finish(self, start, pre_cl=b'', read_client=True):
         self.pump_upstream()
         up = b''.join(self.read_peer(p) for p in self.up_peers if p.fileno() >= 0)
+        self.expect_up = False
         cl = pre_cl
         if read_client and self.client_open:
             cl += self.read_peer(self.client)
         return CALLS[start:], up, cl
 
-    def write_client(self, seg):
+    def read_client(self, write):
+        """the client writes `write` (None: nothing new), then the handler gets one readable event = one recv"""
         start = len(CALLS)
         if self.down or not self.client_open:
             return [], b'', b'', False
-        self.client.send(seg)
+        if write is not None:
+            self.client.send(write)
         self.deliver([self.cfd], [])
         toks, up, cl = self.finish(start)
         return toks, up, cl, self.down
@@ -587,12 +676,20 @@ def simulate(case, drain=False):
             if k in ('F', 'B', 'C'):
                 if k == 'F':
                     sim.connect_ok = bool(ev[2])
-                gs = [sim.write_client(seg) for seg in ev_segments(ev)]
-                if k == 'C':
-                    groups += gs
-                else:
-                    groups.append((sum((g[0] for g in gs), []), b''.join(g[1] for g in gs),
-                                   b''.join(g[2] for g in gs), any(g[3] for g in gs)))
+                head = []
+                for d in ev_plan(ev, case.get('rbuf')):
+                    g = sim.read_client(d['write'])
+                    if d['head']:
+                        head.append(g)
+                        if d['done']:
+                            groups.append((sum((x[0] for x in head), []), b''.join(x[1] for x in head),
+                                           b''.join(x[2] for x in head), any(x[3] for x in head)))
+                            head = []
+                    else:
+                        groups.append(g)
+                if head:        # the first request never completed (cannot happen for generated cases)
+                    groups.append((sum((x[0] for x in head), []), b''.join(x[1] for x in head),
+                                   b''.join(x[2] for x in head), any(x[3] for x in head)))
             else:
                 groups.append(sim.event(ev))
         if drain:
@@ -647,31 +744,29 @@ def prog_str(p):
     return ':'.join([str(p[0])] + [act_str(a) for a in p[1:]])
 
 
-def ev_extra(ev):
-    return ev[4] if ev[0] == 'F' and len(ev) > 4 else ev[3] if ev[0] == 'C' and len(ev) > 3 else []
-
-
-def more_str(reqs):
+def more_str(pairs):
     """`req~rest^…`: the requests completing in a read, each with the bytes that follow it in that read"""
-    raws = [req_bytes(r) for r in reqs]
-    return '^'.join('%s~%s' % (req_model(r), hx(b''.join(raws[i + 1:]))) for i, r in enumerate(reqs)) or '-'
+    return '^'.join('%s~%s' % (req_model(r), hx(rest)) for r, rest in pairs) or '-'
 
 
-def ev_strs(ev):
+def ev_strs(ev, rbuf=None):
     k = ev[0]
-    extra = ev_extra(ev)
-    if k == 'F':
-        return ['F:%s:%d:%s:%s' % (req_model(ev[1]), 1 if ev[2] else 0, hx(b''.join(req_bytes(r) for r in extra)),
-                                   more_str(extra))]
-    if k == 'B':
-        return ['B']
-    if k == 'C':
-        segs = ev_segments(ev)
-        return ['C:%s:-' % hx(s) for s in segs[:-1]] + ['C:%s:%s' % (hx(segs[-1]), more_str([ev[1]] + extra))]
+    if k in ('F', 'B', 'C'):
+        out = []
+        for d in ev_plan(ev, rbuf):
+            if d['head']:
+                if d['done']:
+                    out.append('B' if k == 'B' else 'F:%s:%d:%s:%s' % (
+                        req_model(ev[1]), 1 if ev[2] else 0, hx(d['rest']), more_str(d['reqs'])))
+            else:
+                out.append('C:%s:%s' % (hx(d['chunk']), more_str(d['reqs'])))
+        return out
     if k == 'U':
         return ['U:' + (ev[1] or '-')]
     if k == 'CR':
         return ['CA']       # for the model a reset is a vanished client; what differs is what shutdown() meets
+    if k == 'UR':
+        return ['UE']       # … and an upstream reset is an upstream that is gone
     return [k]
 
 
@@ -679,7 +774,7 @@ def model_lines(case):
     auth = 'None' if case['auth'] is None else hx(case['auth'].encode())
     dis = ','.join(hx(L(d)) for d in case['dis']) or '-'
     progs = ';'.join(prog_str(p) for p in case['plugins']) or '-'
-    evs = ';'.join(s for ev in case['evs'] for s in ev_strs(ev)) or '-'
+    evs = ';'.join(s for ev in case['evs'] for s in ev_strs(ev, case.get('rbuf'))) or '-'
     return ['chain run %s %s %s %s' % (auth, dis, progs, evs)]
 
 
@@ -872,11 +967,15 @@ def group_events(case):
     """event (and, for 'C', whether it is the last segment) behind every group of simulate()"""
     out = []
     for ev in case['evs']:
-        if ev[0] == 'C':
-            n = len(ev_segments(ev))
-            out += [(ev, k == n - 1, seg) for k, seg in enumerate(ev_segments(ev))]
+        if ev[0] in ('F', 'B', 'C'):
+            for d in ev_plan(ev, case.get('rbuf')):
+                if d['head']:
+                    if d['done']:
+                        out.append((ev, d, d['rest']))
+                else:
+                    out.append((['C'], d, d['chunk']))
         else:
-            out.append((ev, True, None))
+            out.append((ev, None, None))
     return out
 
 
@@ -909,7 +1008,9 @@ def judge(case, order, groups, sd):
         return 'lifecycle-on_upstream_connection_close-not-exactly-once-each-in-order'
     if len([t for t in sd if t.startswith('dlog.')]) != (1 if how in ('done', 'none') else 0):
         return 'lifecycle-default-access-log-wrong'
-    lost = any(e[0] in ('CA', 'CR') for e in evs)       # a vanished client may lose what was still queued
+    lost = any(e[0] in ('CA', 'CR') for e in evs)
+    if not group_events(case) or group_events(case)[0][0][0] != 'F':
+        dispatched = False       # a vanished client may lose what was still queued
     allcl = b''.join(g[2] for g in groups)
     # first request
     ev = evs[0]
@@ -937,7 +1038,9 @@ def judge(case, order, groups, sd):
         return None                      # connect failed: 502, nothing more to judge here
     tunnel = req_fields(ev[1])[3]
     upstream = bool(conns)
-    packed = ev_extra(ev)
+    ge = group_events(case)
+    packed = [r for r, _ in ge[0][1]['reqs']]          # follow-ups completing in the recv that completed the first request
+    rest0 = ge[0][2]
     pipelined = upstream and not tunnel
     f, res = check_chains(case, order, toks, 'creq', [val] + ([spec_digest(r) for r in packed] if pipelined else []))
     if f:
@@ -952,7 +1055,7 @@ def judge(case, order, groups, sd):
                                first=(how in ('done', 'dropped')), allcl=allcl, lost=lost, head=True)
             if f:
                 return f
-        elif how2 in ('dropped', 'raised') and up and not packed:
+        elif how2 in ('dropped', 'raised') and up and not rest0:
             return 'request-forwarded-after-handle_client_request-%s' % how2
         if any(r[0] == 'raised' for r in res):
             st['dead'] = True
@@ -960,8 +1063,8 @@ def judge(case, order, groups, sd):
             want = reject_bytes(act2)
             if not allcl.startswith(want) and not (lost and want.startswith(allcl)):
                 return 'reject-response-differs-from-the-plugins-choice'
-    if packed and not upstream and not (order and res[0][0] == 'raised'):
-        f, h3, a3, _ = check_chain(case, order, toks, 'cdata', hx(b''.join(req_bytes(r) for r in packed)))
+    if rest0 and not upstream and not (order and res[0][0] == 'raised'):
+        f, h3, a3, _ = check_chain(case, order, toks, 'cdata', hx(rest0))
         if f:
             return f
         if order and h3 == 'none':
@@ -969,10 +1072,10 @@ def judge(case, order, groups, sd):
     # later events
     if td:
         st['dead'] = True
-    for (gev, last, seg), g in zip(group_events(case)[1:], groups[1:]):
+    for (gev, d, seg), g in zip(ge[1:], groups[1:]):
         k = gev[0]
         was_dead = st['dead']
-        if g[3] or k in ('CE', 'CA', 'CR', 'UE'):
+        if g[3] or k in ('CE', 'CA', 'CR', 'UE', 'UR'):
             st['dead'] = True
         if k == 'C':
             if any('.cdata.' in t for t in g[0]):
@@ -986,9 +1089,9 @@ def judge(case, order, groups, sd):
                     if reject_bytes(a3) not in allcl and not lost:
                         return 'reject-response-differs-from-the-plugins-choice'
             if any('.creq.' in t for t in g[0]):
-                if not last:
+                reqs = [r for r, _ in d['reqs']]
+                if not reqs:
                     return 'handle_client_request-ran-on-incomplete-follow-up'
-                reqs = [gev[1]] + ev_extra(gev)
                 f, res = check_chains(case, order, g[0], 'creq', [spec_digest(r) for r in reqs])
                 if f:
                     return 'follow-up-' + f
@@ -997,7 +1100,7 @@ def judge(case, order, groups, sd):
                     return 'follow-up-' + f
                 if any(r[0] == 'raised' for r in res):
                     st['dead'] = True
-            elif last and order and pipelined and not st['upgraded'] and not was_dead:
+            elif d['reqs'] and order and pipelined and not st['upgraded'] and not was_dead:
                 return 'follow-up-handle_client_request-chain-did-not-run'
         elif k == 'U':
             if any('.up.' in t for t in g[0]):
@@ -1112,6 +1215,14 @@ def mk_prog(rng, label, quiet=0.6):
     return [label, a5(), a5(), a5(), a3(), a3(), 'I' if rng.random() < 0.15 else 'P']
 
 
+def pad_req(req, n):
+    """the request with an X-Pad header that makes its length a multiple of n (so that a recv of n bytes
+    ends exactly at its end)"""
+    base = dict(req, h=req['h'] + ['X-Pad: '])
+    k = (-len(req_bytes(base))) % n
+    return dict(req, h=req['h'] + ['X-Pad: ' + 'a' * k])
+
+
 def mk_cuts(rng, n, p=0.4):
     if rng.random() > p or n < 2:
         return []
@@ -1150,8 +1261,10 @@ def mk_events(rng, auth, quietfirst):
                                          b'HTTP/1.1 304 Not Modified\r\n\r\n', b'garbage\r\n\r\n']).hex()])
         elif x < 0.8:
             evs.append(['FL'])
-        elif x < 0.86:
+        elif x < 0.83:
             evs.append(['UE'])
+        elif x < 0.86:
+            evs.append(['UR'])
         elif x < 0.91:
             evs.append(['CE'])
         elif x < 0.95:
@@ -1177,6 +1290,25 @@ def mk_case(rng, nplug=None, quiet=0.6):
         case['evs'].insert(rng.randrange(len(case['evs']) + 1), ['CR'])
     if any(e[0] == 'CR' for e in case['evs']) and rng.random() < 0.15:
         case['tcp'] = 1
+    if rng.random() < 0.10:
+        # the origin resets the connection at some point: before any response, mid-response, after it, at the end
+        case['evs'].insert(rng.randrange(1, len(case['evs']) + 1) if case['evs'] else 0, ['UR'])
+    if any(e[0] == 'UR' for e in case['evs']) and rng.random() < 0.15:
+        case['utcp'] = 1
+    if rng.random() < 0.10 and case['evs'] and case['evs'][0][0] == 'F':
+        # small --client-recvbuf-size: the recv that completes the first request returns exactly a full
+        # buffer while more client bytes are already waiting in the socket
+        n = rng.choice([64, 128])
+        case['rbuf'] = n
+        ev = case['evs'][0]
+        if rng.random() < 0.75:
+            ev[1] = pad_req(ev[1], n)
+        ev[3] = []
+        extra = [mk_req(rng, False, auth if rng.random() < 0.5 else None) for _ in range(rng.randrange(1, 3))]
+        if len(ev) > 4:
+            ev[4] = extra
+        else:
+            ev.append(extra)
     return case
 
 
@@ -1250,6 +1382,30 @@ def corpus():
             if tcp:
                 c['tcp'] = 1
             cs.append(c)
+    # the origin resets the connection (upstream shutdown() in on_client_connection_close raises): hooks exactly once
+    for utcp in (0, 1):
+        for evs in ([['F', req, True, []], ['UR']],
+                    [['F', req, True, []], ['U', '485454502f312e3120323030204f4b0d0a'], ['UR']],
+                    [['F', req, True, []], ['U', '6869'], ['FL'], ['UR']],
+                    [['F', req, True, []], ['U', '6869'], ['C', fol, []], ['UR'], ['FL']],
+                    [['F', _base_req(tunnel=True), True, []], ['FL'], ['UR']],
+                    [['F', req, True, []], ['CE'], ['UR']],
+                    [['F', req, True, []], ['CR'], ['UR']]):
+            c = {'auth': None, 'dis': [], 'plugins': [mod(0), new(1)], 'evs': evs}
+            if utcp:
+                c['utcp'] = 1
+            cs.append(c)
+    # small receive buffer: a rejected first request ends exactly at a full recv, more requests are waiting
+    for n in (64, 128):
+        rej = quiet(1)
+        rej[1] = REJECTS[0]
+        crej = quiet(1)
+        crej[2] = REJECTS[1]
+        for progs in ([mod(0), rej, mod(2)], [mod(0), crej, mod(2)], [mod(0), mod(2)]):
+            cs.append({'auth': None, 'dis': [], 'plugins': progs, 'rbuf': n,
+                       'evs': [['F', pad_req(req, n), True, [], [fol, _base_req('OPTIONS')]], ['FL'], ['FL']]})
+        cs.append({'auth': 'user:pass', 'dis': [], 'plugins': [mod(0), mod(2)], 'rbuf': n,
+                   'evs': [['F', pad_req(req, n), True, [], [fol]], ['FL'], ['FL']]})
     dns = quiet(4)
     dns[6] = 'I'
     cs.append({'auth': None, 'dis': [], 'plugins': [quiet(0), dns, mod(1)], 'evs': http_script(req, fol)})
@@ -1275,6 +1431,9 @@ def generate(rng, tier):
         [['F', req, True, []]],
         [['F', req, True, []], ['C', fol, []], ['CR']],
         [['F', req, True, []], ['U', '6869'], ['CR'], ['UE']],
+        [['F', req, True, []], ['UR']],
+        [['F', req, True, []], ['U', '485454502f312e3120323030204f4b0d0a436f6e74656e742d4c656e6774683a2039390d0a0d0a6869'], ['UR']],
+        [['F', req, True, []], ['U', '6869'], ['FL'], ['C', fol, []], ['UR'], ['FL']],
     ]
     devs = [(h, a) for h in range(1, 6) for a in (['N', 'P', 'D'] + ([REJECTS[0], 'X'] if h <= 3 else []))] + [(6, 'I')]
     tables = []
@@ -1308,6 +1467,7 @@ def neighbours(case):
         yield dict(case, plugins=case['plugins'][:i] + case['plugins'][i + 1:])
     yield dict(case, plugins=list(reversed(case['plugins'])))
     yield dict(case, evs=case['evs'] + [['CR']])
+    yield dict(case, evs=case['evs'] + [['UR']])
     yield dict(case, plugins=[[p[0]] + ['N' if a == 'M' else a for a in p[1:]] if p != ['A'] else p for p in case['plugins']])
 
 
@@ -1321,7 +1481,11 @@ def describe(case):
     out.append('first=' + (evs[0][0] if evs else 'none'))
     if evs and evs[0][0] == 'F':
         out.append('first-method=' + evs[0][1]['m'])
-    ends = [e[0] for e in evs if e[0] in ('UE', 'CE', 'CA', 'CR')]
+    ends = [e[0] for e in evs if e[0] in ('UE', 'UR', 'CE', 'CA', 'CR')]
+    if case.get('utcp'):
+        out.append('upstream=real-tcp')
+    if case.get('rbuf'):
+        out.append('recvbuf=%d' % case['rbuf'])
     if case.get('tcp'):
         out.append('client=real-tcp')
     out.append('ending=' + (ends[0] if ends else 'reaped'))
